@@ -6,6 +6,7 @@ import (
 	"crypto/sha256"
 	"fmt"
 	"os/exec"
+	"regexp"
 	"strconv"
 	"strings"
 	"sync"
@@ -26,19 +27,39 @@ type solverSpec struct {
 	cmd       func(timeoutS int) []string
 	pre       string
 	unsatOnly bool // configuration that drops axioms: only its unsat answers are used
+	rewrite   func(string) string // equivalent reformulation of the query for this configuration
 }
 
 var solvers = []solverSpec{
-	{"z3-5.1", func(t int) []string { return []string{"z3-new", "-in", fmt.Sprintf("-T:%d", t)} }, "", false},
+	// the monotone-interference axioms (forall x. A[x] => B[x]) restated without a
+	// quantifier as B = A or D for a fresh D (equivalent: take D = B). z3 then finds
+	// models (failing inputs) in milliseconds where the quantified form times out.
+	{"z3-5.1-map", func(t int) []string { return []string{"z3-new", "-in", fmt.Sprintf("-T:%d", t)} }, "", false, monotoneAsMap},
+	{"z3-5.1", func(t int) []string { return []string{"z3-new", "-in", fmt.Sprintf("-T:%d", t)} }, "", false, nil},
 	{"cvc5-1.0", func(t int) []string {
 		return []string{"cvc5", "--lang=smt2", "--produce-models", fmt.Sprintf("--tlimit=%d", t*1000), "-"}
-	}, "(set-logic ALL)\n", false},
-	{"z3-4.8", func(t int) []string { return []string{"/usr/bin/z3", "-in", fmt.Sprintf("-T:%d", t)} }, "", false},
+	}, "(set-logic ALL)\n", false, nil},
+	{"z3-4.8", func(t int) []string { return []string{"/usr/bin/z3", "-in", fmt.Sprintf("-T:%d", t)} }, "", false, nil},
 	// same solver without array extensionality instantiation: much faster on the quantified
 	// slice obligations; dropping an axiom keeps unsat answers valid, sat answers are ignored
 	{"z3-5.1-noext", func(t int) []string {
 		return []string{"z3-new", "-in", fmt.Sprintf("-T:%d", t), "smt.array.extensional=false"}
-	}, "", true},
+	}, "", true, nil},
+}
+
+var monoAxiomRe = regexp.MustCompile(`\(assert \(forall \(\((\|x![0-9]+\|) Int\)\) \(! \(=> \(select (\|[^|]+\|) (\|x![0-9]+\|)\) \(select (\|[^|]+\|) (\|x![0-9]+\|)\)\) :pattern \(\(select (\|[^|]+\|) (\|x![0-9]+\|)\)\)\)\)\)`)
+
+func monotoneAsMap(q string) string {
+	n := 0
+	return monoAxiomRe.ReplaceAllStringFunc(q, func(m string) string {
+		g := monoAxiomRe.FindStringSubmatch(m)
+		if g[1] != g[3] || g[1] != g[5] || g[1] != g[7] || g[4] != g[6] {
+			return m
+		}
+		n++
+		d := fmt.Sprintf("|mono:D%d|", n)
+		return fmt.Sprintf("(declare-const %s (Array Int Bool))\n(assert (= %s ((_ map or) %s %s)))", d, g[4], g[2], d)
+	})
 }
 
 func runSolver(ctx context.Context, sp solverSpec, query string, timeoutS int, wantModel bool) SolveResult {
@@ -46,6 +67,9 @@ func runSolver(ctx context.Context, sp solverSpec, query string, timeoutS int, w
 	defer cancel()
 	args := sp.cmd(timeoutS)
 	cmd := exec.CommandContext(ctx, args[0], args[1:]...)
+	if sp.rewrite != nil {
+		query = sp.rewrite(query)
+	}
 	q := sp.pre + query + "(check-sat)\n"
 	if wantModel {
 		q += "(get-model)\n"
